@@ -27,7 +27,9 @@ RULE = ('Archives of 0..5 members (duplicate names, sizes 0..200 odd and even, c
         'or a seek followed by a read.')
 ASSUMPTIONS = ['only the compared interface of the statement: read(n>=1)/read(), readline(n>=1)/readline(), readlines(), seek with '
                'non-negative targets, tell(); read(0) (documented "all"), readlines(hint), seek return values, __iter__ excluded',
-               'short member names only (<= 15 bytes, no "/" inside); archives are well-formed (odd members padded)']
+               'short member names only (<= 15 bytes, no "/" inside); archives are well-formed (odd members padded)',
+               'member names are packed as UTF-8 bytes; the str a listing shows is those bytes decoded with the file-system encoding and '
+               'surrogateescape (the documented default of ArFile), whatever the locale of the process is']
 ANCHORS = ['debian.arfile:ArFile.__collect_members', 'debian.arfile:ArMember.from_file', 'debian.arfile:ArMember.read',
            'debian.arfile:ArMember.readline', 'debian.arfile:ArMember.readlines', 'debian.arfile:ArMember.seek',
            'debian.arfile:ArMember.tell', 'debian.arfile:ArFile.getmember']
@@ -238,7 +240,12 @@ def _history(ctx, case, holder, members, ops, raw, tf):
     ar = holder['ars'][0]
     # --- listing / metadata / lookup
     ctx.mon('M.listing')
-    names = [m['name'] for m in members]
+    # names are bytes in the archive; the documented default turns them into str with the file-system encoding and
+    # surrogateescape (ArFile(encoding=None, errors=None)) - so the expected str follows the process's encoding
+    import sys
+    def shown(n):
+        return n.encode('utf-8').decode(sys.getfilesystemencoding(), 'surrogateescape')
+    names = [shown(m['name']) for m in members]
     if ar.getnames() != names:
         ctx.violation('listing-differs', 'getnames()=%r packed=%r' % (ar.getnames(), names))
         return
@@ -248,7 +255,7 @@ def _history(ctx, case, holder, members, ops, raw, tf):
         return
     for m, want in zip(live, members):
         got = (m.name, m.size, m.owner, m.group, m.mtime)
-        exp = (want['name'], len(want['data']), want['uid'], want['gid'], want['mtime'])
+        exp = (shown(want['name']), len(want['data']), want['uid'], want['gid'], want['mtime'])
         if got != exp:
             ctx.violation('metadata-differs', 'got %r want %r' % (got, exp))
             return
